@@ -736,7 +736,7 @@ class C03(Property):
     design_ref = 'DESIGN.md section 10, C03'
     required_theorems = (
         'acceptsInt_iff', 'unsigned_pattern_iff', 'signed_pattern_iff', 'accepts_boolean_iff', 'accepts_enum_iff',
-        'accepts_hex_iff', 'accepts_hex_grouped_iff', 'hexTail_iff', 'octet_iff', 'gate_iff', 'propOk_iff', 'cardOk_iff',
+        'accepts_hex_iff', 'accepts_hex_grouped_iff', 'hexTail_iff', 'octet_iff', 'accepts_ipv4_iff', 'accepts_ipv6_iff', 'accepts_uuid_iff', 'gate_iff', 'propOk_iff', 'cardOk_iff',
         'attOk_iff', 'validator_history_independent', 'validator_eq_fresh', 'cache_never_consulted', 'runHist_eq_spec',
     )
     level_text = ('Lean 4 theorems over the model of the gate (the value space recognisers generated by '
